@@ -89,7 +89,7 @@ func Judge(mode colmodel.Mode, exp colmodel.Expect, msg *entities.Message, err e
 			if ie.ElementId != f.ID || ie.EnterpriseId != f.PEN {
 				return xplore.V("template-fields", "field %d is %d/%d, wire has %d/%d", i, ie.EnterpriseId, ie.ElementId, f.PEN, f.ID)
 			}
-			if f.Known && (ie.Name != f.Name || ie.DataType != f.Type || ie.Len != f.Len) {
+			if f.Known && (ie.Name != f.Name || ie.DataType != f.Type || (ie.Len != f.Len && ie.Len != f.WireLen)) {
 				return xplore.V("template-fields", "field %d (%s) delivered as name=%q type=%d len=%d, registry says type=%d len=%d", i, f.Name, ie.Name, ie.DataType, ie.Len, f.Type, f.Len)
 			}
 			if !f.Known && (ie.DataType != entities.OctetArray || ie.Len != f.Len || ie.Name != "") {
